@@ -48,7 +48,13 @@ JudgeVerifyRun(e) ==
                 errs == MustRejectErrorsOf(e.bytes, st)
             IN IF errs # {} THEN PrintT(<<"REJECT", base.id, l, "C05.invalid-stream-decoded-silently", e.kind, e.at, errs>>) ELSE TRUE
        ELSE TRUE
-Judge(e) == IF e.reader = "verify" THEN JudgeVerifyRun(e) ELSE IF e.kind \in {"flip", "cut"} THEN JudgeExhaustive(e) ELSE JudgeExplicit(e)
+\* a caller that goes on after an error (the per-channel reader, asked three more times): a frame that was refused is not handed out
+\* afterwards - whatever comes after the error is a run of the original audio from a later frame start, or nothing
+JudgeRetry(e) ==
+    IF "after_error_genuine" \in DOMAIN e /\ e.kind \in {"flip", "cut"} /\ ~e.after_error_genuine
+    THEN Rej("C05.refused-frame-is-not-handed-out-later", e) ELSE TRUE
+Judge(e) == /\ JudgeRetry(e)
+            /\ IF e.reader = "verify" THEN JudgeVerifyRun(e) ELSE IF e.kind \in {"flip", "cut"} THEN JudgeExhaustive(e) ELSE JudgeExplicit(e)
 JudgeVerify(e) ==
     LET want == CASE e.md5mode = "zero" -> "NoMD5"
                   [] e.md5mode = "good" /\ ~e.pcm_altered -> "MD5Match"
